@@ -165,4 +165,12 @@ CHECKS['C09'] = dict(
          'all bodies of <=3 lines over 8 marker/header/comment-like line kinds x {terminated, terminator last without newline, missing}, unterminated quotes at every position: the argv / file contents '
          'observed at the process seam must equal the denotation; syntax errors must name the containing instruction.',
     note='Found and repaired KF-C09-HASH (fix: commit in /repo); KF-C09-QUOTE (quoting type of a mixed token decided by its first character) is a recorded known finding matched by predicate + defect model.')
+CHECKS['C08'] = dict(
+    level='exploration',
+    technique='bounded-exhaustive enumeration of def/use programs over phases and file orders against a reference interpreter, and of (provenance of a symbol) x (context with a documented type demand), through the real CLI with the effect log',
+    text='All programs of <=2 placed statements over 7 statement kinds x 5 phases and all programs of 3 over {def A, def B(A), use A, use B} x 4 phases, each in 2-3 file orders of the phase blocks (~10 000 runs): '
+         'the reference interpreter (execution order = phase order, then file order) decides VALIDATION_ERROR-with-no-effects vs PASS-with-probe-values; 17 provenances (7 types directly, strings built from '
+         'string/list/path through 1 and 2 definitions, list/path hidden behind a sibling reference, list holding a path) x 24 contexts x 2 definition phases against the accepted-type table incl. the "purely '
+         'string, transitively" contexts; 8 value-rendering cases (concatenation, splicing, list-in-string, absolute paths, -rel-cd at reference time, builtins).',
+    note='Accepted-type table transcribed from the manual pages and the statement\'s transitivity clause; calibrated against the unchanged tree with 0 disagreements.')
 NOT_APPLICABLE = {}
